@@ -372,6 +372,8 @@ def follow_sessions(trace):
                 st.append(["check", pid, a[1] == "1"])
             elif name == "log.open":
                 st.append(["open", pid, int(a[1])])
+            elif name == "log.eof":
+                st.append(["eof", pid])
             elif name == "log.stop":
                 st.append(["stop", pid])
         else:
@@ -410,6 +412,9 @@ def follow_sessions(trace):
                     active = True
                 elif k == "open":
                     evs.append("op,%d" % e[2])
+                elif k == "eof":
+                    if not (evs and evs[-1] == "ef"):
+                        evs.append("ef")
                 elif k == "stop":
                     evs.append("st"); active = False
             evs = [x for x in evs if x is not None]
